@@ -22,7 +22,7 @@ fn verif_native_core_eval_witness() {
     std::panic::set_hook(Box::new(|_| {}));
     let mut n = 0;
     let mut bad: Vec<String> = Vec::new();
-    let cases: [(&str, &str, &str); 66] = [
+    let cases: [(&str, &str, &str); 77] = [
         // ---- lexical scope: the innermost binding, found where the procedure was CREATED
         ("(define x 1) (define (f) x) (define (g x) (f)) (g 2)", "value 1", "lexical, not dynamic, scope"),
         ("(define (make-adder n) (lambda (x) (+ x n))) ((make-adder 3) 4)", "value 7", "a closure sees the frame it was created in"),
@@ -86,6 +86,13 @@ fn verif_native_core_eval_witness() {
         ("(define (f x) (define y (* x 2)) (define (g z) (+ y z)) (g 1)) (f 5)", "value 11", "internal definitions see the parameters and earlier definitions"),
         ("(define (f n) (define (ev? n) (if (= n 0) #t (od? (- n 1)))) (define (od? n) (if (= n 0) #f (ev? (- n 1)))) (ev? n)) (f 10)", "value #t", "internal definitions are visible to the whole body (mutual recursion)"),
         ("(define (f) (define inner 5) inner) (f) inner", "error", "an internal definition is not visible outside"),
+        // ... also in a procedure WITHOUT parameters (its frame is empty when the first internal definition is evaluated)
+        ("(define (f) (define (g) (h)) (define (h) 42) (g)) (f)", "value 42", "internal definitions of a thunk see each other"),
+        ("(define (f) (define (count n) (if (= n 0) 0 (+ 1 (count (- n 1))))) (count 3)) (f)", "value 3", "an internal procedure of a thunk is recursive"),
+        ("(define (h) 1) (define (f) (define (g) (h)) (define (h) 2) (g)) (f)", "value 2", "an internal definition of a thunk shadows a global for its siblings"),
+        ("(define (outer h) ((lambda () (define g (lambda () (h))) (define h (lambda () 20)) (g)))) (outer (lambda () 10))", "value 20", "the innermost binding, through an empty frame"),
+        ("(define (f) (define a 1) (define (g) (define b 2) (lambda () (+ a b))) ((g))) (f)", "value 3", "closures through two parameterless frames"),
+        ("(apply (lambda (a b c) (cons a (cons b c))) 1 2 3 '())", "value (1 2 . 3)", "apply keeps the order of three leading arguments"),
         ("(define (f) (define inner 5) inner) (f)", "value 5", "an internal definition inside"),
         // ---- higher-order procedures, apply
         ("(define (compose f g) (lambda (x) (f (g x)))) ((compose (lambda (x) (* x 2)) (lambda (x) (+ x 1))) 5)", "value 12", "compose"),
@@ -95,6 +102,11 @@ fn verif_native_core_eval_witness() {
         ("(apply + (cons 1 (cons 2 '())))", "value 3", "apply a builtin"),
         ("(apply (lambda (a . r) r) '(1 2 3))", "value (2 3)", "apply a lambda with a rest parameter"),
         ("(define (f a b) (- a b)) (= (f 9 4) (apply f '(9 4)))", "value #t", "direct call and apply agree"),
+        ("(apply + 1 2 '(3 4))", "value 10", "apply with arguments before the list"),
+        ("(apply (lambda (a b c) (cons a (cons b (cons c '())))) 1 '(2 3))", "value (1 2 3)", "apply keeps the order: fixed arguments, then the list's elements"),
+        ("(apply (lambda r r) '())", "value ()", "apply to the empty list"),
+        ("(apply (lambda r r) 1 2 '())", "value (1 2)", "apply with an empty last list"),
+        ("(apply - '(10 3))", "value 7", "apply a builtin to a list"),
         ("(define (fact n) (if (= n 0) 1 (* n (fact (- n 1))))) (fact 10)", "value 3628800", "recursion"),
     ];
     for (program, want, what) in cases.iter() {
